@@ -239,6 +239,129 @@ theorem driver_lin_ok (R : Region d) (A : Mat d) (b : Vec d) (rows : List (Row d
     refine ⟨fun a => rfl, fun h => ?_⟩
     simp [Row.withLinData, Row.isElim, h] at he
 
+/-! ### `mpsa2d`: the assembled 2-D discretisation -/
+
+namespace GridS
+variable (G : GridS)
+
+/-- In a certified grid every interaction region is uniquely solvable: the hypothesis `Unisolvent`
+    of the region theorems is discharged per instance by the checked left inverse. -/
+theorem mpsa2d_regions_unisolvent (Ls : List C11.Mat) (hwf : G.WF) (hcert : G.certs = some Ls)
+    (bc : Nat → Vec 2) (v : Nat) (hv : v < G.numNodes) : Unisolvent (G.region bc v) :=
+  cert_unisolvent _ _ (G.region_rowsOK hwf bc v) (G.certs_ok Ls hcert bc v hv)
+
+theorem nodeSol_R (Ls : List C11.Mat) (u bc : Nat → Vec 2) (v : Nat) :
+    (G.nodeSol Ls u bc v).R = G.region bc v := rfl
+
+theorem nodeSol_u (Ls : List C11.Mat) (u bc : Nat → Vec 2) (v : Nat) :
+    (G.nodeSol Ls u bc v).u = G.uLoc u v := rfl
+
+/-- per node without eliminated rows: the solver's gradients for affine data are all `A` -/
+theorem node_gradient_exact (A : Mat 2) (b : Vec 2) (Ls : List C11.Mat) (hwf : G.WF)
+    (hcert : G.certs = some Ls) (v : Nat) (hv : v < G.numNodes) (hel : G.elimAt v = false)
+    (k : Nat) (hk : k < (G.cellsOf v).length) :
+    (G.nodeSol Ls (G.affineU A b) (G.affineBc A b) v).Gs k = A := by
+  have hvol : sumTo (G.region (G.affineBc A b) v).vol (G.region (G.affineBc A b) v).m ≠ 0 :=
+    hwf.2.2.2 v hv
+  exact cert_solution2 (G.region (G.affineBc A b) v) (Ls.getD v [])
+    (affineCells (G.region (G.affineBc A b) v) A b) (fun _ => A)
+    (G.region_rowsOK hwf _ v) (G.certs_ok Ls hcert _ v hv)
+    (local_consistency_vec _ A b hvol (G.region_linear hwf A b v hel)) k hk
+
+/-- **`mpsa2d_linear_exact`.**  For EVERY well-formed 2-D grid (any topology given by
+    `face_nodes` / `cell_faces`, any geometry arrays, any η, λ, μ, any Dirichlet/Neumann assignment)
+    all of whose interaction regions are certified nonsingular (`G.certs = some Ls`), the assembled
+    scheme — per node the region the model builds itself, gradients `L_v · rhs_v`, discrete Hooke's
+    law with weak-symmetry averaging, sub-face tractions summed per face, sub-face displacements
+    averaged per face — applied to the data of `u(x) = A x + b` (cell values `u(x_c)`, Dirichlet
+    values `u(x_f)`, Neumann values `sgn · σ(A) n_f`) gives the exact traction `σ(A) n_f` on every
+    face none of whose nodes had the averaged part eliminated, and the exact displacement `u(x_f)`
+    on every such boundary face. -/
+theorem mpsa2d_linear_exact (A : Mat 2) (b : Vec 2) (Ls : List C11.Mat) (hwf : G.WF)
+    (hcert : G.certs = some Ls) (f : Nat) (hf : f < G.numFaces) (hne : G.noElimFace f = true) :
+    (∀ a, G.faceTraction (G.nodeSol Ls (G.affineU A b) (G.affineBc A b)) f a
+        = mulVec (hooke G.lam G.mu A) (G.fnAt f) a) ∧
+    (G.isBoundary f = true →
+      ∀ a, G.faceDisp (G.nodeSol Ls (G.affineU A b) (G.affineBc A b)) f a = affine A b (G.fcAt f) a) := by
+  obtain ⟨hnonempty, hnodes⟩ := G.fnodes_ok hwf f hf
+  have hN : G.nN f ≠ 0 := by
+    unfold nN
+    intro h0
+    have : (G.fnodes f).length = 0 := by exact_mod_cast h0
+    exact hnonempty (List.length_eq_zero_iff.mp this)
+  have hel : ∀ v ∈ G.fnodes f, G.elimAt v = false := by
+    intro v hv
+    have := (List.all_eq_true.mp hne) v hv
+    simpa using this
+  constructor
+  · intro a
+    unfold faceTraction
+    rw [sumList_const _ _ ((1 / G.nN f) * mulVec (hooke G.lam G.mu A) (G.fnAt f) a)]
+    · show G.nN f * _ = _
+      field_simp
+    · intro v hv
+      have hvn := hnodes v hv
+      have hfv : f ∈ G.facesOf v := (G.mem_facesOf v f).mpr ⟨hf, hv⟩
+      have hi := G.loc_lt v _ (G.firstCell_mem hwf v f hfv)
+      have hG : ∀ k, k < (G.region (G.affineBc A b) v).m →
+          (G.nodeSol Ls (G.affineU A b) (G.affineBc A b) v).Gs k = A :=
+        fun k hk => G.node_gradient_exact A b Ls hwf hcert v hvn (hel v hv) k hk
+      unfold subTr
+      rw [hel v hv, Bool.false_and]
+      unfold subTraction
+      rw [G.nodeSol_R, mulVec_congr (subStress_of_equal (G.region (G.affineBc A b) v) _ A (hwf.2.2.2 v hvn) hG _ hi)]
+      unfold subNormal
+      exact mulVec_scale _ _ _ _
+  · intro hb a
+    unfold faceDisp
+    rw [sumList_const _ _ (affine A b (G.fcAt f) a)]
+    · show G.nN f * _ / G.nN f = _
+      field_simp
+    · intro v hv
+      have hvn := hnodes v hv
+      have hfv : f ∈ G.facesOf v := (G.mem_facesOf v f).mpr ⟨hf, hv⟩
+      rcases G.fcells_cases hwf f hf with ⟨c, s, hl, hc, _⟩ | ⟨c1, s1, c2, s2, hl, _, _⟩
+      · have hmem := G.cell_mem v f c s hc hfv (by rw [hl]; simp)
+        have hG := G.node_gradient_exact A b Ls hwf hcert v hvn (hel v hv) _ (G.loc_lt v c hmem)
+        unfold subU
+        rw [hl, G.nodeSol_R, G.nodeSol_u]
+        exact subDisp_affine (G.region (G.affineBc A b) v) A b _ _ hG _ a
+      · simp [isBoundary, hl] at hb
+
+/-- … in particular (the property's wording) on every non-Neumann face of a grid whose boundary
+    set is admissible: elimination only at nodes all of whose faces are Neumann.  In genuine 2-D
+    grids every Dirichlet/Neumann assignment is admissible (`elimAt` fires only at a corner with
+    one cell and two Neumann faces). -/
+theorem mpsa2d_nonneumann_exact (A : Mat 2) (b : Vec 2) (Ls : List C11.Mat) (hwf : G.WF)
+    (hcert : G.certs = some Ls) (hadm : G.admissible = true) (f : Nat) (hf : f < G.numFaces)
+    (hnn : G.isNeu f = false) :
+    (∀ a, G.faceTraction (G.nodeSol Ls (G.affineU A b) (G.affineBc A b)) f a
+        = mulVec (hooke G.lam G.mu A) (G.fnAt f) a) ∧
+    (G.isBoundary f = true →
+      ∀ a, G.faceDisp (G.nodeSol Ls (G.affineU A b) (G.affineBc A b)) f a = affine A b (G.fcAt f) a) := by
+  apply G.mpsa2d_linear_exact A b Ls hwf hcert f hf
+  have := (List.all_eq_true.mp hadm) f (List.mem_range.mpr hf)
+  simpa [hnn] using this
+
+/-- rigid motions (`A` skew, in particular `A = 0`): zero traction on those faces -/
+theorem mpsa2d_rigid_motion_zero_traction (A : Mat 2) (b : Vec 2) (hskew : ∀ i j, A i j = -A j i)
+    (Ls : List C11.Mat) (hwf : G.WF) (hcert : G.certs = some Ls) (f : Nat) (hf : f < G.numFaces)
+    (hne : G.noElimFace f = true) (a : Fin 2) :
+    G.faceTraction (G.nodeSol Ls (G.affineU A b) (G.affineBc A b)) f a = 0 := by
+  rw [(G.mpsa2d_linear_exact A b Ls hwf hcert f hf hne).1 a]
+  exact mulVec_zero_mat (hooke_skew _ _ hskew) _ a
+
+/-- what the driver executes (`apply`, with the node solutions tabulated once) is the scheme the
+    theorems talk about -/
+theorem apply_eq (Ls : List C11.Mat) (u bc : Nat → Vec 2) :
+    G.apply Ls u bc =
+      ((List.range G.numFaces).map (fun f => vecToList (G.faceTraction (G.nodeSol Ls u bc) f)),
+       (List.range G.numFaces).map (fun f => vecToList (G.faceDisp (G.nodeSol Ls u bc) f))) := by
+  unfold apply
+  simp only [solOf_tab]
+
+end GridS
+
 /-! ### Non-vacuity: concrete regions in the plane -/
 
 section examples
@@ -303,12 +426,6 @@ theorem exCorner_lin : LinearData exCorner exA exb := by
   · intro a; rfl
   · intro a; rfl
 
-theorem fin2_cases (i : Fin 2) : i = 0 ∨ i = 1 := by
-  rcases i with ⟨_ | _ | n, h⟩
-  · left; rfl
-  · right; rfl
-  · omega
-
 theorem exCorner_unisolvent : Unisolvent exCorner := by
   intro u G₁ G₂ h₁ h₂ k hk
   have hk0 : k = 0 := by simp only [exCorner] at hk; omega
@@ -334,6 +451,49 @@ example (G : Nat → Mat 2) (hsol : Solves exCorner (affineCells exCorner exA ex
 /-- three Neumann sub-faces in three different sub-cells of a node with four sub-cells -/
 example : ¬ (4 < [10, 11, 12].length) :=
   admissible_no_elimination 4 [10, 11, 12] (fun s => s - 10) (by decide) (by decide) (by decide)
+
+/-- a concrete grid for `mpsa2d_linear_exact`: two unit squares side by side; Dirichlet on the left
+    and top-right faces, Neumann elsewhere, so that the corner node 2 has two Neumann faces and one
+    cell (`_eliminate_ncasym` fires there) -/
+def exGridS : GridS :=
+  { nodes := [[0, 0], [1, 0], [2, 0], [0, 1], [1, 1], [2, 1]],
+    faceNodes := [[0, 3], [1, 4], [2, 5], [0, 1], [1, 2], [3, 4], [4, 5]],
+    faceCells := [[(0, -1)], [(0, 1), (1, -1)], [(1, 1)], [(0, -1)], [(1, -1)], [(0, 1)], [(1, 1)]],
+    cellCenters := [[1/2, 1/2], [3/2, 1/2]],
+    faceCenters := [[0, 1/2], [1, 1/2], [2, 1/2], [1/2, 0], [3/2, 0], [1/2, 1], [3/2, 1]],
+    faceNormals := [[1, 0], [1, 0], [1, 0], [0, 1], [0, 1], [0, 1], [0, 1]],
+    volShare := [1/4, 1/4],
+    isDir := [true, false, false, false, false, false, true],
+    eta := 0, lam := 3/2, mu := 3/4 }
+
+/-- hypotheses of `mpsa2d_linear_exact` / `mpsa2d_nonneumann_exact` are satisfiable (well-formed,
+    admissible, all six regions certified, elimination does occur at node 2), and the conclusion is
+    what the model computes: for `u = exA x + exb` the assembled scheme returns `σ(A) n_f` on all
+    seven faces and `u(x_f)` on the two Dirichlet faces -/
+example :
+    exGridS.WF ∧ exGridS.admissible = true ∧ exGridS.elimAt 2 = true ∧ exGridS.noElimFace 1 = true ∧
+    (exGridS.certs).isSome = true ∧
+    (exGridS.certs).map (fun Ls => (exGridS.apply Ls (exGridS.affineU exA exb) (exGridS.affineBc exA exb)).1)
+      = some [[27/4, 3/2], [27/4, 3/2], [27/4, 3/2], [3/2, 9/2], [3/2, 9/2], [3/2, 9/2], [3/2, 9/2]] ∧
+    (exGridS.certs).map (fun Ls =>
+        ((exGridS.apply Ls (exGridS.affineU exA exb) (exGridS.affineBc exA exb)).2.getD 0 [],
+         (exGridS.apply Ls (exGridS.affineU exA exb) (exGridS.affineBc exA exb)).2.getD 6 []))
+      = some (vecToList (affine exA exb (exGridS.fcAt 0)), vecToList (affine exA exb (exGridS.fcAt 6))) := by
+  decide +kernel
+
+/-- the certificate is not vacuous: with both cell centres of the corner node 0 moved onto the line
+    through the two boundary face centres the local system is singular and `certs` refuses the grid
+    (the degenerate configuration of corpus/C13/07) -/
+example :
+    ({ nodes := [[0, 0], [1, 0], [0, 1], [1, 1]],
+       faceNodes := [[0, 1], [0, 2], [0, 3], [1, 3], [2, 3]],
+       faceCells := [[(0, -1)], [(1, -1)], [(0, 1), (1, -1)], [(0, 1)], [(1, 1)]],
+       cellCenters := [[3/8, 1/8], [1/8, 3/8]],
+       faceCenters := [[1/2, 0], [0, 1/2], [1/2, 1/2], [1, 1/2], [1/2, 1]],
+       faceNormals := [[0, 1], [1, 0], [1, -1], [1, 0], [0, 1]],
+       volShare := [1/6, 1/6], isDir := [true, true, false, true, true],
+       eta := 1/3, lam := 1, mu := 1 } : GridS).certs = none := by
+  decide +kernel
 
 /-- a rotation: `σ(A) = 0` -/
 example : ∀ i j : Fin 2, hooke (5/3) (7/2) (m2 0 (-4) 4 0) i j = 0 := by decide +kernel
